@@ -75,6 +75,7 @@ func instancesFor(prop, tier string) []*Instance {
 		c13Instances(add, thorough)
 	case "C07":
 		c07Instances(add, thorough)
+		c07MoreInstances(add, thorough)
 	case "C11":
 		c11Instances(add, thorough, 0)
 	case "C16":
@@ -846,6 +847,31 @@ func c07Instances(add func(*Instance), thorough bool) {
 	}
 }
 
+// (continued from c07Instances) three distinct members / a single member
+func c07MoreInstances(add func(*Instance), thorough bool) {
+	win := P("L", 7, "eff", 1, "xb", 0, "xm", 262143, "sb", 0, "sm", 262143, "len", 3, "w", 1)
+	// three members, the third inserting a key below and a key above the keys accumulated from the first two; then mutate
+	// the result or the third member
+	three := with(win, "ak", 2, "akeys", 13, "acow", 0, "ac0", 21, "ac1", 21, "bk", 2, "bkeys", 13, "bcow", 0, "bc0", 21, "bc1", 22,
+		"ck", 2, "ckeys", 14, "ccow", 0, "cc0", 21, "cc1", 21, "emp", 2)
+	for _, op := range []int{11, 13, 14, 16, 18} {
+		for _, mut := range []int{0, 4} {
+			for _, mk := range []int{0, 1} {
+				// the mutation's argument lies in the third member's first chunk (key 2) resp. second chunk (key 5)
+				add(&Instance{Func: "VerifC07Op", Params: with(three, "op", op, "mut", mut, "mk", mk, "pre", 0, "xb", 2*65536+56, "xm", 15)})
+				add(&Instance{Func: "VerifC07Op", Params: with(three, "op", op, "mut", mut, "mk", mk, "pre", 0, "xb", 5*65536+56, "xm", 15)})
+			}
+		}
+	}
+	// a single member: the result must still be a bitmap of its own
+	one := with(win, "ak", 2, "akeys", 0, "acow", 1, "ac0", 1, "ac1", 1, "bk", 0, "emp", 3)
+	for _, op := range []int{11, 12, 13, 14, 16, 17, 18} {
+		for _, mut := range []int{0, 1} {
+			add(&Instance{Func: "VerifC07Op", Params: with(one, "op", op, "mut", mut, "mk", 0, "pre", 0)})
+		}
+	}
+}
+
 func c11Instances(add func(*Instance), thorough bool, inv int) {
 	base := P("L", 7, "eff", 1, "xb", 0, "xm", -1, "inv", inv,
 		"ak", 2, "akeys", 0, "ac0", 1, "ac1", 1, "bk", 2, "bkeys", 0, "bc0", 1, "bc1", 1, "ck", 1, "ckeys", 0, "cc0", 1)
@@ -1004,6 +1030,10 @@ func c17Instances(add func(*Instance), thorough bool) {
 			ad(with(top, "op", 19, "g", g, "w", w, "cnb", 1, "cne", 1, "ckeys", 5, "clow", 3, "clowb", 0), 0)
 			ad(with(P("anb", 2, "ane", 1, "akeys", 4, "alow", 3, "bnb", 2, "bne", 1, "bkeys", 4, "blow", 3, "cnb", 1, "cne", 1, "ckeys", 4, "clow", 3, "xh", 0, "xb", 0, "xm", 0x100000003), "op", 19, "g", g, "w", w), 0)
 		}
+	}
+	for g := 4; g <= 6; g++ {
+		ad(with(free, "op", 19, "g", g, "w", 1, "cnb", 0), 0)
+		ad(with(P("anb", 2, "ane", 1, "akeys", 4, "alow", 3, "bnb", 0, "cnb", 0, "xh", 0, "xb", 0, "xm", 0x100000003, "acow", 1), "op", 19, "g", g, "w", 1), 0)
 	}
 	ad(with(free, "op", 20, "acow", 1), 0)
 	// three members whose buckets interleave inside one work chunk (third member inserts below and above accumulated buckets)
